@@ -379,11 +379,7 @@ def build_fn(key, mode, log):
 
     loops = [m for m in re.finditer(r'\b(for|while|loop)\b', masked)
              if not re.match(r'for\s*<', masked[m.start():m.start() + 8])]
-    for d in c.directives:
-        k = d['kind']
-        tag = -d['lineno']
-        if k == 'replace':
-            continue
+    def _place(d, k, tag):
         if k == 'first':
             inserts.append((0, ghost_text(d), tag, d))
         elif k == 'last':
@@ -528,6 +524,22 @@ def build_fn(key, mode, log):
             inserts.append((h.start() if k == 'before' else h.end(), ghost_text(d), tag, d))
         else:
             raise ValueError('%s:%d: unknown directive %s' % (c.rel, d['lineno'], k))
+
+
+    for d in c.directives:
+        k = d['kind']
+        tag = -d['lineno']
+        if k == 'replace':
+            continue
+        optional = k.endswith('?')
+        if optional:
+            k = k[:-1]
+        try:
+            _place(d, k, tag)
+        except LostAnchor as e:
+            if not optional:
+                raise
+            prov.setdefault('skipped_hints', []).append('%s:%d %s' % (c.rel, d['lineno'], str(e)[:160]))
 
     # 3. apply insertions back to front (stable for equal positions: later directives after earlier)
     inserts_sorted = sorted(enumerate(inserts), key=lambda t: (t[1][0], t[0]), reverse=True)
